@@ -1,1 +1,2 @@
   | "be", rest -> be_run_enc rest
+  | "lvl", rest -> lvl_run_enc rest
